@@ -42,11 +42,11 @@ man = {
     },
     "engines": [
         {"name": "vh", "path": "harness/", "serves_properties": [c["property_id"] for c in checks],
-         "kind_free_text": "Rust crate: reference Avro model (schema AST, spellings, PCF, bit-serial CRC-64-AVRO, layout-complete encoder, strict decoder, container writer/parser), serde presentations and capture, I/O doubles; proptest TestRunner over entropy tapes in worker sub-processes, corpus replay, shrinking, evidence"},
+         "kind_free_text": "Rust crate (+ cargo-fuzz targets in fuzz/ for 15 properties): reference Avro model (schema AST, spellings, PCF, bit-serial CRC-64-AVRO, layout-complete encoder, strict decoder, container writer/parser), serde presentations and capture, I/O doubles; proptest TestRunner over entropy tapes in worker sub-processes, corpus replay, shrinking, evidence"},
     ],
     "checks": checks,
     "not_applicable": na,
-    "notes": "All commands go through ./check (exit 0 held / 1 VIOLATION / 2 inconclusive). VERIF_SEED selects the PRNG seed; VERIF_CASES overrides the case count; known findings live in known_findings.txt.",
+    "notes": "All commands go through ./check (exit 0 held / 1 VIOLATION / 2 inconclusive). VERIF_SEED selects the PRNG seed; VERIF_CASES overrides the case count; VERIF_FUZZ_RUNS the libFuzzer runs per job of the thorough tier (VERIF_NO_FUZZ=1 skips it); known findings live in known_findings.txt.",
 }
 json.dump(man, open(f"{V}/MANIFEST.json", "w"), indent=1)
 print("claimed:", [c["property_id"] for c in checks])
